@@ -236,6 +236,35 @@ PROPS["C14"] = dict(
     explanation="proved: validator predicates and the 304 decision of both interfaces; bounded: history clauses on a virtual clock.",
 )
 
+PROPS["C10"] = dict(
+    modules=["common", "c10"],
+    contracts=["cached_property.__get__", "c10.atomicity", "asgi.Request.stream", "wsgi.Request.stream"],
+    no_refute=["c10.atomicity"],
+    refute={"quick": [2], "thorough": [1, 2, 3]},
+    native="c10",
+    level="other",
+    trusted=["A-py-1", "A-solver", "A-pyvc"],
+    level_text="Mixed. PROVED: cached_property.__get__ computes the value exactly once per call, stores it (wrapped in one future "
+               "iff awaitable) under the function's name in the instance dict and returns that same object, leaving other "
+               "entries alone; it contains no await/yield (atomic), and in both stream() functions no suspension point lies "
+               "between testing and setting the consumed flag (AST lemmas) - this reduces the concurrent clause to the "
+               "sequential contracts. ASGI stream(): against a ghost server script of any length, it yields exactly the "
+               "concatenation of the bodies of the messages it consumed, consumes each message at most once and none after "
+               "the final chunk, ends only after a message with more_body false, raises ClientDisconnect iff the script "
+               "ends with a disconnect (so a truncated body is never returned), raises RuntimeError('Stream consumed') iff "
+               "already consumed and no completed cached body, and replays the cached body otherwise (loop invariant). WSGI "
+               "stream(): yields exactly the input's bytes (short reads allowed), same error/replay behaviour. BOUNDED "
+               "(labelled): body/json/form/close and whole access sequences, identity of cached results, and sets of "
+               "concurrently awaiting tasks (samples schedules) are run against a reference automaton.",
+    level_note="Trusted: an instance-dict entry shadows the non-data descriptor, so the wrapped function runs once per instance "
+               "(A-py-1); the server script is http.request* then optionally http.disconnect (A-server); wsgi.input.read "
+               "returns b'' only at the end (A-wsgi-1); ensure_future wraps without running (A-conc-1). Arbitrary "
+               "interleavings beyond the atomicity argument (e.g. is_disconnected() racing a reader) are not covered.",
+    technique="deductive verification: contracts with ghost server script and loop invariants on the real stream()/cached_property, AST atomicity lemmas, SMT; bounded reference automaton for access sequences",
+    explanation="proved: cached_property.__get__, atomicity side conditions, ASGI and WSGI Request.stream; bounded: body/json/form/"
+                "close sequences, cached identity, concurrent awaits.",
+)
+
 NOT_APPLICABLE = {
     "C06": "quantifies over schedules/interleavings (relay thread vs consumer vs closer, asyncio tasks vs ping timer) and is a "
            "bounded-liveness claim; contracts over a sequential, await-erased semantics cannot express an interleaving and "
